@@ -129,6 +129,8 @@ def gen_plan(seed, tier="quick"):
                    "where": r.choice(["end", "start", "any", "site", "site", "site"])} if r.random() < 0.4 else None),
         "trace": None,
     }
+    if plan["rerun"] and not plan["append"] and r.random() < 0.4:
+        plan["ns_first"] = ns          # the earlier run was on a recording of the SAME length (other content): its output has exactly the final size
     if fixture == "NP24_shank":
         plan.update({"append": False, "rerun": False, "mixed_gains": False,
                      "prelude": "sibling" if r.random() < 0.6 else None})
